@@ -253,7 +253,7 @@ CATALOG = [
     ("N", lambda r: ["summary", "-a", "field_type,count,min,max"] if False else ["count-distinct", "-n", "-f", "a"]),
     ("E", lambda r: ["head", "-n", str(r.choice([0, 1, 1, 2, 3, 5, 10]))]),
     ("E", lambda r: ["head"]),
-    ("E", lambda r: ["nothing"]),
+    ("S", lambda r: ["nothing"]),  # passes nothing on but reads everything: not an early exit
     ("P", lambda r: ["put", "-q", r.choice(["@sum[$a] += $x; end{emit @sum, \"a\"}", "@c[$a][$b] = NR; end{emitp @c, \"a\"}",
                                             "@n = NR; end{emit @n}", "emit mapsum($*, {\"nr\": NR})", "tee > \"out_\".$a.\".dat\", $*" if False else "emit1 {\"a\": $a}",
                                             "@r[NR] = $*; end{emit @r, \"NR\"}", "@x_max = max(@x_max, $x); @x_min = min(@x_min, $x); end{emitf @x_max, @x_min}",
@@ -384,6 +384,13 @@ def termination_cases(rng, tier):
         lambda r: [["head", "-n", "1", "-g", "a"], ["head", "-n", "2"]],
         lambda r: [["nothing"]],
         lambda r: [["cat"], ["nothing"], ["cat"]],
+        # verbs that let nothing through still consume the whole stream: everything upstream happens for every record
+        lambda r: [["put", "print \"nr=\".NR"], ["nothing"]],
+        lambda r: [["put", "-q", "print NR; emit $*"], ["nothing"], ["cat"]],
+        lambda r: [["tee", "tee_out.txt"], ["nothing"]],
+        lambda r: [["put", "-q", "tee > \"t_all.txt\", $*"], ["nothing"]],
+        lambda r: [["put", "print \"nr=\".NR"], [r.choice(["count", "tac", "group-like", "tail"])]] if False else [["put", "print \"nr=\".NR"], ["filter", "false"]],
+        lambda r: [["put", "end { print \"n=\" . NR }"], ["nothing"]],
         lambda r: [["put", "-q", "tee > \"t_\".$a.\".txt\", $*"], ["head", "-n", "1"]] if False else [["fill-down", "-f", "b"], ["head", "-n", "3"], ["sec2gmt", "i"]],
         lambda r: [["head", "-n", "2"], ["put", "-q", "@c = NR; end{emit @c}"]],
         lambda r: [["head", "-n", "1"], ["tee", "tee_out.txt"], ["head", "-n", "1"]],
